@@ -74,7 +74,7 @@ def one(rng):
     op = rng.choice(["add", "sub", "mul", "divS", "divArr", "abs", "minimum", "diff", "masked_invalid", "set_inner_zeros", "set_tail_zeros",
                      "gt", "lt", "ge", "or", "set_where_b", "set_where", "set_zero_where_b", "set_first_last", "of_input",
                      "sign", "le", "eq_true", "any", "view_init_set", "view_tail_set", "view_tail_set_bools", "set_at0", "mask_or",
-                     "mask_and_xor", "filled", "of_input_junk", "pdiff", "mean_sign", "mul_s", "where_le_plus1", "set_idx", "great_circle", "rolling", "where_eq", "empty_fill"])
+                     "mask_and_xor", "filled", "of_input_junk", "pdiff", "mean_sign", "mul_s", "where_le_plus1", "set_idx", "great_circle", "rolling", "where_eq", "empty_fill", "and_mb", "and_pb", "not_b", "none_unmasked", "z_idx_nodepth"])
     req = {"kind": "np", "op": op, "a": wire_cells(a), "b": wire_cells(b), "r": enc(r)}
     with np.errstate(all="ignore"):
         if op == "add":
@@ -111,6 +111,13 @@ def one(rng):
         if op in ("gt", "lt", "ge", "le"):
             res = {"gt": A > float(r), "lt": A < float(r), "ge": A >= float(r), "le": A <= float(r)}[op]
             return req, canon_b(res)
+        if op == "none_unmasked":
+            from ioos_qc.utils import isnan as q_isnan
+            Z = np.ma.masked_invalid(A)
+            req["a"] = [[d, bool(m) or d is None] for d, m in req["a"]]          # as the function sees it: NaN cells are masked
+            return req, bool(not Z.count() or q_isnan(Z.any()))
+        if op == "z_idx_nodepth":
+            return req, canon_b(np.ma.array(data=~np.isnan(A.data), mask=np.ma.getmaskarray(A), fill_value=999999)) if n else []
         if op == "sign":
             return req, canon_ma(np.sign(A))
         if op == "mask_or":
@@ -201,6 +208,12 @@ def one(rng):
         req.update({"c1": [[bool(d), bool(m)] for d, m in c1], "c2": [[bool(d), bool(m)] for d, m in c2], "flags": flags})
         if op == "or":
             return req, canon_b(to_b(c1) | to_b(c2))
+        if op == "and_mb":
+            return req, canon_b(to_b(c1) & to_b(c2)) if n else []
+        if op == "and_pb":
+            return req, canon_b(np.array([d for d, _ in c1], dtype=bool) & to_b(c2)) if n else []
+        if op == "not_b":
+            return req, canon_b(~to_b(c1)) if n else []
         if op == "eq_true":
             return req, canon_b(to_b(c1) == True) if n else []  # noqa: E712
         if op == "any":
